@@ -19,8 +19,8 @@
 (***************************************************************************)
 EXTENDS HGX, Dec, Derive, Json, IOUtils, TLCExt
 
-VARIABLES ti, li, store, nbad, nev, seen, lays
-tvars == <<ti, li, store, nbad, nev, seen, lays>>
+VARIABLES ti, li, store, nbad, nev, seen, lays, imds
+tvars == <<ti, li, store, nbad, nev, seen, lays, imds>>
 
 \* the batch is deserialised once (register 42), not at every step
 Traces == TLCGet(42)
@@ -43,6 +43,7 @@ Objs(ev) == {p[1] : p \in Rng(ev.st)}
 \* the call itself: outcome and effect, against Succ of the PRE state
 DecCrit(c) == LET f == Pairs2Fun(c) IN [a \in DOMAIN f |-> Rng(f[a])]
 TSucc(P, op) ==
+  IF op.op = "set_inc_md" THEN (IF op.k \in Keys(P) THEN {P} ELSE {}) ELSE     \* leaves the main state alone
   IF op.op = "filter"
   THEN FilterSucc(P, op.hasn, DecCrit(op.ncrit), op.hase, DecCrit(op.ecrit), op.mode, op.keep)
   ELSE Succ(P, op)
@@ -210,8 +211,26 @@ LayerClauses(ev, op, Q) ==
   IF Kind # "mux" \/ ~Has(ev, "q") \/ ~Has(ev.q, "layers") THEN {} ELSE
   {<<"layers_only_from_accepted_insertions", Rng(ev.q.layers) \subseteq LaysAfter(ev, op, Q)>>}
 
+(* Incidence metadata ((hyperedge, node) -> metadata; Hypergraph, DirectedHypergraph, TemporalHypergraph).  *)
+(* What happens to an entry when its hyperedge is removed is not promised, so the history variable only     *)
+(* keeps DEMANDS: entries set since the hyperedge was last (re)inserted must be reported unchanged - also   *)
+(* by a copy.  Entries the object still shows beyond that are accepted.                                      *)
+ImdAfter(ev, op, Q) ==
+  LET o == ev.obj
+      base == IF op.op = "copy" /\ op.from \in DOMAIN imds THEN imds[op.from]
+              ELSE IF op.op \in {"new", "adopt", "clear"} \/ o \notin DOMAIN imds THEN <<>>
+              ELSE imds[o]
+      kept == Restrict(base, {kn \in DOMAIN base : kn[1] \in Keys(Q)})
+  IN IF op.op = "set_inc_md" /\ ev.ok /\ op.k \in Keys(Q) THEN Upd(kept, <<op.k, op.n>>, op.md) ELSE kept
+IncClauses(ev, op, Q) ==
+  IF ~Has(ev, "q") \/ ~Has(ev.q, "imd") THEN {} ELSE
+  LET must == ImdAfter(ev, op, Q)
+      kns  == {<<DecKey(p[1]), p[2]>> : p \in Rng(ev.q.imd)}
+      got  == [kn \in kns |-> (CHOOSE p \in Rng(ev.q.imd) : <<DecKey(p[1]), p[2]>> = kn)[3]]
+  IN {<<"incidence_metadata", \A kn \in DOMAIN must : kn \in kns /\ got[kn] = must[kn]>>}
+
 ---------------------------------------------------------------------------
-TInit == /\ ti = 1 /\ li = 1 /\ store = <<>> /\ nbad = 0 /\ nev = 0 /\ seen = <<>> /\ lays = <<>>
+TInit == /\ ti = 1 /\ li = 1 /\ store = <<>> /\ nbad = 0 /\ nev = 0 /\ seen = <<>> /\ lays = <<>> /\ imds = <<>>
          /\ TLCSet(42, JsonDeserialize(IOEnv.TRACE_FILE).traces)
 
 Judge(ev) ==
@@ -233,17 +252,18 @@ Judge(ev) ==
       qs == IF Has(ev, "q") THEN QueryClauses(ev.q, Q) ELSE {}
       ds == IF Has(ev, "d") THEN DeriveClauses(ev.d, Q) ELSE {}
   IN {c[1] : c \in {c \in step \cup others \cup ProjClauses(ev, j, Q) \cup qs \cup ds
-                          \cup LoadClauses(ev, Q) \cup HashClauses(ev, Q) \cup LayerClauses(ev, op, Q) : ~c[2]}}
+                          \cup LoadClauses(ev, Q) \cup HashClauses(ev, Q) \cup LayerClauses(ev, op, Q) \cup IncClauses(ev, op, Q) : ~c[2]}}
 
 TNext ==
   /\ ti <= Len(Traces)
   /\ IF li > Len(Traces[ti])
-     THEN /\ ti' = ti + 1 /\ li' = 1 /\ store' = <<>> /\ lays' = <<>> /\ UNCHANGED <<nbad, nev, seen>>
+     THEN /\ ti' = ti + 1 /\ li' = 1 /\ store' = <<>> /\ lays' = <<>> /\ imds' = <<>> /\ UNCHANGED <<nbad, nev, seen>>
           /\ (ti < Len(Traces) \/ PrintT("DONE " \o ToString(nev) \o " " \o ToString(nbad)))
      ELSE LET ev == Traces[ti][li]
               failed == Judge(ev)
           IN /\ store' = [x \in Objs(ev) |-> StateOf(ev, x)]
              /\ li' = li + 1 /\ ti' = ti /\ nev' = nev + 1
+             /\ imds' = Upd(imds, ev.obj, ImdAfter(ev, DecOp(ev.op), StateOf(ev, ev.obj)))
              /\ lays' = IF Kind = "mux"
                         THEN Upd(lays, ev.obj, LaysAfter(ev, DecOp(ev.op), StateOf(ev, ev.obj)))
                         ELSE lays
